@@ -8,6 +8,21 @@ For every generated grammar G and every transformation T offered as equivalence-
   structural:       T_model(G) = T_impl(G) as weighted rule multisets (mirror models of
                     Model/Transform.lean; fresh names aligned through the `_gen_nt` counter), stage by
                     stage for the `cnf` pipeline (each stage on the real input of that stage).
+
+`unarycycleremove` (Model/UCycle.lean) is tied in twice, on the raw grammar and on the real output of
+`nullaryremove()` (the input it gets inside the Earley parsers), for `trim=False` and `trim=True`, under every hash seed:
+  unarycycleremove       the model is given what the real call read off its `WeightedGraph` (the graph returned by
+                         `_unary_graph()` inside that very call is intercepted): `A = G.E`, `G.Blocks` (node sets in iteration
+                         order + closure matrices).  The model then only copies weights, so the rule multisets must be EQUAL
+                         (no summing of parallel rules, no tolerance, floats included);
+  unarycycleremove_full  only the ORDER of the blocks is taken from the code.  The model builds `_unary_graph()` itself
+                         (compared with the real `N` and `E`), checks with the verified `sccCheck` that the real blocks are its
+                         strongly connected components sources first, computes the closures with its `_closure` and the rules;
+                         compared with tolerance where the real arithmetic is floating point.  The driver also evaluates the
+                         hypotheses of `ucycle_no_unary_cycle_graph` / `hasUnaryCycle_graph` on the case.
+  has_unary_cycle        the real method on the input and on both outputs vs the mirror model `hasUnaryCycle` on the real
+                         blocks, and vs the specification predicate `noUnaryCycle` (they may differ only where a key of the
+                         graph cancelled to zero, which the driver reports).
 """
 import hashlib
 import json
@@ -16,7 +31,9 @@ import struct
 
 from harness import common, gen
 
-STAGES = ["separate_terminals", "binarize", "separate_start", "push_null", "trim", "cotrim", "unaryremove", "unfold"]
+STAGES = ["separate_terminals", "binarize", "separate_start", "push_null", "trim", "cotrim", "unaryremove", "unfold",
+          "unarycycleremove", "unarycycleremove_full", "ucycle_pred"]
+UCYCLE = ("unarycycleremove", "unarycycleremove_full", "ucycle_pred")
 PUBLIC = ["trim", "cotrim", "binarize", "separate_start", "separate_terminals", "nullaryremove", "nullaryremove_nb",
           "nullaryremove_nt", "unaryremove", "unarycycleremove", "unarycycleremove_nt", "cnf", "rename", "renumber", "unfold"]
 
@@ -27,6 +44,62 @@ def _enc_chart1(ch, R):
 
 def _enc_chart2(ch, R):
     return [[common.enc_sym(k[0]), common.enc_sym(k[1]), common.enc_w(v, R)] for k, v in ch.items()]
+
+
+def _spy_unary_graph(g, f):
+    """run f() with `g._unary_graph` intercepted; returns (result, [graphs the call built])"""
+    seen = []
+    orig = g._unary_graph
+
+    def spy():
+        G = orig()
+        seen.append(G)
+        return G
+    g._unary_graph = spy  # instance attribute shadows the method during this call only
+    try:
+        return f(), seen
+    finally:
+        del g._unary_graph
+
+
+def _enc_nodes(xs):
+    return [common.enc_sym(x) for x in xs]
+
+
+def ucycle_steps(steps, inp, R, where):
+    """`inp.unarycycleremove(trim=…)` and `has_unary_cycle()` with everything the calls read off their WeightedGraph"""
+    from genlm.grammar import cfg as _cfg
+    inj = common.enc_cfg(inp, R)
+    try:
+        huc, seen = _spy_unary_graph(inp, lambda: inp.has_unary_cycle())
+        huc_bl = [_enc_nodes(b) for b in seen[0].blocks]
+    except Exception as e:  # noqa
+        steps.append({"name": "has_unary_cycle", "where": where, "input": inj, "exc": type(e).__name__, "msg": str(e)[:200]})
+        return
+    steps.append({"name": "ucycle_pred", "where": where, "input": inj, "params": {"bl": huc_bl}, "has_unary_cycle": bool(huc),
+                  "of": "input"})
+    for trim in (False, True):
+        c0 = _cfg._gen_nt.i
+        try:
+            out, seen = _spy_unary_graph(inp, lambda: inp.unarycycleremove(trim=trim))
+            [G] = seen
+            # read AFTER the call: `blocks` / `Blocks` are cached properties, these are the objects the call used
+            blocks = [[_enc_nodes(nodes), _enc_chart2(W, R)] for nodes, W in G.Blocks]
+            graph = {"N": _enc_nodes(G.N), "E": _enc_chart2(G.E, R)}
+            outj = common.enc_cfg(out, R)
+            ohuc, oseen = _spy_unary_graph(out, lambda: out.has_unary_cycle())
+            obl = [_enc_nodes(b) for b in oseen[0].blocks]
+        except Exception as e:  # noqa
+            steps.append({"name": "unarycycleremove", "where": where, "input": inj, "params": {"trim": trim}, "ctr0": c0,
+                          "exc": type(e).__name__, "msg": str(e)[:200]})
+            continue
+        c1 = _cfg._gen_nt.i
+        steps.append({"name": "unarycycleremove", "where": where, "input": inj, "ctr0": c0, "output": outj, "ctr1": c1,
+                      "params": {"A": graph["E"], "blocks": blocks, "trim": trim}})
+        steps.append({"name": "unarycycleremove_full", "where": where, "input": inj, "ctr0": c0, "output": outj, "ctr1": c1,
+                      "params": {"bl": [b[0] for b in blocks], "trim": trim}, "graph": graph})
+        steps.append({"name": "ucycle_pred", "where": where, "input": outj, "params": {"bl": obl}, "has_unary_cycle": bool(ohuc),
+                      "of": f"unarycycleremove(trim={trim})"})
 
 
 def impl(case):
@@ -96,6 +169,14 @@ def impl(case):
         steps.append({"name": "unary_closure", "input": common.enc_cfg(g2, R), "exc": type(e).__name__, "msg": str(e)[:200]})
     for (i, k) in case.get("unfold", []):
         step("unfold", g2, lambda: g2.unfold(i, k), {"i": i, "k": k})
+    # ---- unary-cycle removal: on the raw grammar, and where the Earley parsers apply it
+    ucycle_steps(steps, g2, R, "raw")
+    try:
+        g4 = common.mk_cfg(case["cfg"], R).nullaryremove(binarize=True)
+    except Exception:  # noqa  (reported by the public `nullaryremove` below)
+        g4 = None
+    if g4 is not None:
+        ucycle_steps(steps, g4, R, "nullaryremove")
     # ---- public transformations (semantic + shape checks)
     mk = lambda: common.mk_cfg(case["cfg"], R)  # noqa: fresh object each time (caches)
     public("trim", lambda: mk().trim())
@@ -150,8 +231,41 @@ def make_case(rng, i, tier):
 def corpus():
     f5a = {"S": "S", "V": ["a"], "rules": [["1", "S", ["A", "B"]], ["1", "A", ["a"]], ["1/2", "B", ["B"]]]}
     f5b = {"S": "S", "V": ["a", "c"], "rules": [["1", "S", ["A", "B"]], ["1", "S", ["c"]], ["1", "A", ["a"]], ["1/2", "B", ["B"]]]}
+    # F16: unary rules whose weights cancel — `_unary_graph` must DROP the key (`A[i,j] += w` reaching zero), not keep the stale
+    # weight: `Gstale` of Proofs/UCycle.lean, and the same next to a genuine cycle
+    k1 = {"S": "S", "V": ["a"], "rules": [["1/2", "S", ["S"]], ["-1/2", "S", ["S"]], ["1", "S", ["a"]]]}
+    k2 = {"S": "S", "V": ["a", "b"], "rules": [["1/4", "S", ["A"]], ["1/4", "A", ["S"]], ["1/8", "A", ["A"]], ["-1/8", "A", ["A"]],
+                                               ["1/2", "A", ["a"]], ["1/2", "S", ["b"]], ["1/4", "B", ["B"]], ["1/4", "S", ["B", "a"]],
+                                               ["-1/4", "B", ["B"]], ["1/2", "B", ["b"]]]}
     return [{"shape": "corpus_F5", "R": "Float", "cfg": f5a, "xs": [[], ["a"]], "unfold": []},
-            {"shape": "corpus_F5", "R": "Float", "cfg": f5b, "xs": [["c"], ["a"]], "unfold": []}]
+            {"shape": "corpus_F5", "R": "Float", "cfg": f5b, "xs": [["c"], ["a"]], "unfold": []},
+            {"shape": "corpus_cancel", "R": "Float", "cfg": k1, "xs": [[], ["a"], ["a", "a"]], "unfold": []},
+            {"shape": "corpus_cancel", "R": "Real", "cfg": k2, "xs": [["a"], ["b"], ["b", "a"], ["a", "a"]], "unfold": []}]
+
+
+def cancel_cases(seed, tier, k):
+    """generated grammars with a cancelling pair of unary self-loops X -> X (w), X -> X (-w) added (own random stream: the
+    main stream of cases is unchanged).  Only self-loops: a cancelled edge X -> Y inside a cycle of unary rules makes
+    `unarycycleremove` keep that cycle (weights cancelling), which `noUnaryCycle` rightly flags — see Gcancel in Proofs/UCycle.lean."""
+    rng = random.Random(("cancel", seed, tier).__repr__())
+    out = []
+    for i in range(k):
+        c = make_case(rng, i, tier)
+        if c["R"] not in ("Float", "Real"):
+            c["R"] = "Float"
+            c["cfg"], _ = gen.gen_cfg(rng, shape=c["shape"], maxrules=6)
+            c["xs"] = gen.gen_strings(rng, c["cfg"], k=4, maxlen=3)
+        heads = sorted({h for _, h, _ in c["cfg"]["rules"]}) or ["S"]
+        X = rng.choice(heads)
+        w = rng.choice(gen.SMALL)
+        rules = list(c["cfg"]["rules"])
+        for ww in (w, -w):
+            rules.insert(rng.randint(0, len(rules)), [common.frac_str(ww), X, [X]])
+        c["cfg"] = {**c["cfg"], "rules": rules}
+        c["unfold"] = []   # (rule index, position) pairs of make_case refer to the rule list before the insertions
+        c["shape"] = "cancel_" + c["shape"]
+        out.append(c)
+    return out
 
 
 def _dec(v):
@@ -168,6 +282,70 @@ def same_rules(a, b, tol=1e-9):
         if not common.close(ca[k], cb[k], tol, 1e-12):
             return False, f"weight of {k}: model {ca[k]} impl {cb[k]}"
     return True, ""
+
+
+def same_rules_exact(a, b):
+    """EQUAL rule multisets: parallel rules are not summed, weights are compared exactly"""
+    def ms(d):
+        return sorted((common.symkey(h), common.symkey(bd), str(common.num(w))) for w, h, bd in d["rules"])
+    ma, mb = ms(a), ms(b)
+    if ma == mb:
+        return True, ""
+    from collections import Counter
+    ca, cb = Counter(ma), Counter(mb)
+    return False, f"rule multisets differ: only-model {sorted((ca - cb).elements())[:3]} only-impl {sorted((cb - ca).elements())[:3]}"
+
+
+def _edge_chart(triples):
+    """items of a chart `E` (one entry per key on both sides: the driver sends the accumulated values `E[i,j]`)"""
+    acc = {}
+    for i, j, w in triples:
+        k = (common.symkey(i), common.symkey(j))
+        assert k not in acc, "duplicate key in a chart"
+        acc[k] = common.num(w)
+    return acc
+
+
+def compare_ucycle(st, r, stats):
+    """model vs code for one of the unary-cycle steps; returns (ok, why)"""
+    name = st["name"]
+    if name == "ucycle_pred":
+        stats["has_unary_cycle_checks"] += 1
+        if bool(r["has_unary_cycle"]) != st["has_unary_cycle"]:
+            return False, f"has_unary_cycle of {st['of']}: model {r['has_unary_cycle']} impl {st['has_unary_cycle']}"
+        if not r["scc_ok"]:
+            return False, f"has_unary_cycle of {st['of']}: the blocks of the real _unary_graph() are not the SCCs (sources first) of the model's"
+        if r["scc_rules_ok"]:
+            # hypothesis of `hasUnaryCycle_graph` holds: the specification predicate must agree as well
+            if st["has_unary_cycle"] == bool(r["no_unary_cycle"]):
+                return False, f"has_unary_cycle of {st['of']} = {st['has_unary_cycle']} but noUnaryCycle = {r['no_unary_cycle']}"
+        else:
+            stats["ucycle_cancelled_keys"] += 1
+        return True, ""
+    if name == "unarycycleremove":
+        stats["ucycle_exact"] += 1
+        return same_rules_exact(r["cfg"], st["output"])
+    # unarycycleremove_full
+    stats["ucycle_full"] += 1
+    g = st["graph"]
+    if sorted(map(common.symkey, r["nodes"])) != sorted(map(common.symkey, g["N"])):
+        return False, f"_unary_graph().N: model {r['nodes']} impl {g['N']}"
+    em, ei = _edge_chart(r["edges"]), _edge_chart(g["E"])   # stored keys (a stored value is never zero on either side)
+    if set(em) != set(ei):
+        return False, f"_unary_graph().E keys: only-model {sorted(set(em) - set(ei))[:3]} only-impl {sorted(set(ei) - set(em))[:3]}"
+    for k in em:
+        if not common.close(em[k], ei[k], 1e-12, 0):
+            return False, f"_unary_graph().E[{k}]: model {em[k]} impl {ei[k]}"
+    if not r["scc_ok"]:
+        return False, "the blocks of the real _unary_graph() are not the SCCs (sources first) of the model's graph"
+    if r["divergent"]:
+        stats["ucycle_divergent"] += 1   # star undefined at a pivot in exact arithmetic: nothing to compare
+        return True, ""
+    if not r["arcs_complete"]:
+        stats["ucycle_cancelled_keys"] += 1
+    elif not r["out_no_unary_cycle"]:
+        return False, "hypotheses of ucycle_no_unary_cycle_graph hold but the model's output has a unary cycle"
+    return same_rules(r["cfg"], st["output"])
 
 
 def wn_ops(cfg, R, xs):
@@ -219,7 +397,7 @@ def run_common(ctx, which):
     if ctx.get("replay"):
         cases = [f["case"] for f in ctx["replay"]["failing"] if "case" in f]
     else:
-        cases = corpus() + [make_case(rng, i, tier) for i in range(n)]
+        cases = corpus() + cancel_cases(ctx.get("seed", 0), tier, 4 if tier == "quick" else 40) + [make_case(rng, i, tier) for i in range(n)]
     for i, c in enumerate(cases):
         c["id"] = i
     impl_res = ctx["run_impl"](cases, hashseeds, 90)
@@ -227,7 +405,8 @@ def run_common(ctx, which):
     evaluations = traces = 0
     nontrivial = set()
     shapes, tcount = {}, {}
-    stats = {"structural_steps": 0, "semantic_pairs": 0, "shape_checks": 0, "unconverged": 0, "impl_exceptions": {}, "hashseed_disagreements": 0}
+    stats = {"structural_steps": 0, "semantic_pairs": 0, "shape_checks": 0, "unconverged": 0, "impl_exceptions": {}, "hashseed_disagreements": 0,
+             "ucycle_exact": 0, "ucycle_full": 0, "has_unary_cycle_checks": 0, "ucycle_cancelled_keys": 0, "ucycle_divergent": 0}
     # ---- collect driver work
     base_items, pub_items, pub_index, step_ops, step_index, shape_ops, shape_index = [], [], [], [], [], [], []
     for c in cases:
@@ -260,16 +439,25 @@ def run_common(ctx, which):
             if name in SHAPE_EXPECT:
                 shape_ops.append({"op": "shape", "R": c["R"], "cfg": out, "orig": c["cfg"]})
                 shape_index.append((c, name, out))
-        for st in res0["steps"]:
+        allsteps = [(hashseeds[0], st) for st in res0["steps"]]
+        # the unary-cycle steps depend on set iteration order (order of the blocks, of the nodes in a block): every hash seed
+        for hs in hashseeds[1:]:
+            r2 = impl_res[hs].get(c["id"])
+            if r2 is not None and "exc" not in r2:
+                allsteps += [(hs, st) for st in r2["steps"] if st["name"] in UCYCLE]
+        for hs, st in allsteps:
             if "exc" in st:
-                semantic.append(_viol(which, c, "stage:" + st["name"], None, {"exc": st["exc"], "msg": st.get("msg")}))
+                semantic.append(_viol(which, c, "stage:" + st["name"], None, {"exc": st["exc"], "msg": st.get("msg")}, hs))
                 continue
             if st["name"] not in STAGES:
                 continue
-            op = {"op": "transform", "R": c["R"], "name": st["name"], "cfg": st["input"], "ctr": st["ctr0"]}
+            if st["name"] == "ucycle_pred":
+                op = {"op": "ucycle_pred", "R": c["R"], "cfg": st["input"]}
+            else:
+                op = {"op": "transform", "R": c["R"], "name": st["name"], "cfg": st["input"], "ctr": st["ctr0"]}
             op.update(st["params"])
             step_ops.append(op)
-            step_index.append((c, st))
+            step_index.append((c, dict(st, hashseed=hs)))
     base = eval_wn(ctx, base_items)
     base_by_id = {c["id"]: b for c, b in zip(cases, base)}
     # ---- semantic: WN of the real output vs WN of the input
@@ -308,6 +496,7 @@ def run_common(ctx, which):
                     semantic.append(_viol(which, c, name, None, {"postcondition": "empty language trims to the empty rule set", "output": out}))
             nontrivial.add(hashlib.sha1(json.dumps([c["cfg"], c["R"], name], sort_keys=True).encode()).hexdigest())
     # ---- structural correspondence of the mirror models
+    tcount_uc = {}
     for (c, st), r in zip(step_index, ctx["lean"](step_ops)):
         stats["structural_steps"] += 1
         evaluations += 1
@@ -316,15 +505,34 @@ def run_common(ctx, which):
         if "exc" in r:
             structural.append({"op": st["name"], "what": f"model raised {r['exc']}", "input": st["input"], "case_id": c["id"]})
             continue
-        ok, why = same_rules(r["cfg"], st["output"])
+        if st["name"] in UCYCLE:
+            ok, why = compare_ucycle(st, r, stats)
+            if st["name"] == "ucycle_pred":
+                if ok:
+                    traces += 1
+                else:
+                    structural.append({"op": "has_unary_cycle", "what": why, "input": st["input"], "params": st["params"],
+                                       "model": r, "impl": st["has_unary_cycle"], "case_id": c["id"], "hashseed": st["hashseed"]})
+                continue
+            if ok:
+                tcount_uc[st["where"]] = tcount_uc.get(st["where"], 0) + 1
+        else:
+            ok, why = same_rules(r["cfg"], st["output"])
         if ok and (r["cfg"]["S"] != st["output"]["S"] or r["ctr"] != st["ctr1"]):
             ok, why = False, f"start/counter differ: model {r['cfg']['S']}/{r['ctr']} impl {st['output']['S']}/{st['ctr1']}"
         if ok and sorted(map(common.symkey, r["cfg"]["V"])) != sorted(map(common.symkey, st["output"]["V"])):
             ok, why = False, "vocabulary differs"
         if not ok:
-            structural.append({"op": st["name"], "what": why, "input": st["input"], "params": st["params"], "model": r["cfg"], "impl": st["output"], "case_id": c["id"]})
+            structural.append({"op": st["name"], "what": why, "input": st["input"], "params": st["params"], "model": r["cfg"], "impl": st["output"],
+                               "case_id": c["id"], "hashseed": st.get("hashseed", 0), "where": st.get("where")})
         else:
             traces += 1
+            if st["name"] == "unarycycleremove" and not st["params"]["trim"] and st["hashseed"] == hashseeds[0] and (
+                    any(len(b[0]) > 1 for b in st["params"]["blocks"]) or any(i == j for i, j, _ in st["params"]["A"])):
+                stats["ucycle_cyclic_inputs"] = stats.get("ucycle_cyclic_inputs", 0) + 1
+                if not any(x.get("transformation") == "unarycycleremove" for x in samples):
+                    samples.append({"transformation": "unarycycleremove", "input": st["input"], "blocks": st["params"]["blocks"],
+                                    "impl_output": st["output"], "model_agrees": True})
             if len(samples) < 3 and st["name"] in ("push_null", "binarize", "unaryremove") and st["output"]["rules"]:
                 samples.append({"transformation": st["name"], "input": st["input"], "impl_output": st["output"], "model_agrees": True})
     return {
@@ -332,9 +540,12 @@ def run_common(ctx, which):
         "rule": "seeded random grammars from named shape classes x semiring x transformation; C06: non-trivial = distinct (grammar, transformation) whose "
                 "sampled strings include non-zero and zero derivation sums; C07: distinct (grammar, transformation) pairs whose output was inspected",
         "samples": samples, "traces": traces, "semantic": semantic, "structural": structural,
-        "extra": {"shape_histogram": shapes, "transformations": tcount, "hashseeds": hashseeds, "stats": stats, "cases": len(cases)},
+        "extra": {"shape_histogram": shapes, "transformations": tcount, "hashseeds": hashseeds, "stats": stats, "cases": len(cases),
+                  "unarycycleremove_compared": tcount_uc},
         "assumptions": ["null weights and unary closures are taken from the implementation as inputs of the mirror models (relative statements); "
-                        "their own correctness is C08/C15"],
+                        "their own correctness is C08/C15",
+                        "unarycycleremove is compared both with the graph/blocks/closures observed in the real call and with everything but the "
+                        "ORDER of the blocks computed by the model (the order is validated by the verified SCC checker)"],
     }
 
 
